@@ -25,7 +25,12 @@ Inductive case :=
     fine graph *)
 | CProp (tbl : table) (aa : bool) (exc : option err)
         (base : list (annot * pystr * attrs))
-        (atoms : list (pystr * annot * pystr * list attrs)).
+        (atoms : list (pystr * annot * pystr * list attrs))
+(** a MULTIPLIED annotated coarse node `[#X;..]|n` inside the definition of fragment [fname], coarse step: the base nodes
+    as in CProp, the writing and text of the node, and per use of the fragment the attributes of the n consecutive
+    nodes of the fine graph the token stands for *)
+| CMult (tbl : table) (base : list (annot * pystr * attrs)) (fname : pystr) (a : annot) (text : pystr) (n : nat)
+        (copies : list (list attrs)).
 
 (** ---------------- model side ---------------- *)
 Fixpoint cut_semi (s acc : pystr) : pystr * pystr :=
@@ -73,6 +78,15 @@ Definition corr_ok (c : case) : bool :=
           forallb (fun x => let '(_, _, text, copies) := x in
                             match model_atom (fo_of_table tbl) aa text with
                             | Ok a => forallb (submapb a) copies | Err _ => false end) atoms
+      end
+  | CMult tbl _ _ _ text _ copies =>
+      (* what the code does today: strip_bonding_descriptors records the annotation for ONE node index and hands
+         `[#X]|n` to read_cgsmiles, so the first of the n nodes carries the annotation and the others are bare *)
+      let fo := fo_of_table tbl in
+      match coarse_fragment_node fo text, coarse_fragment_node fo (fst (cut_semi text [])) with
+      | Ok a1, Ok a0 =>
+          forallb (fun cs => match cs with c :: r => submapb a1 c && forallb (submapb a0) r | [] => false end) copies
+      | _, _ => false
       end
   end.
 
@@ -150,6 +164,25 @@ Definition base_fail (tbl : table) (b : annot * pystr * attrs) : nat :=
        | Some e => if submapb e obs then 0%nat else 7%nat
        end.
 
+(** the second known class: an annotated coarse node WITH A MULTIPLIER inside a fragment definition - only the first of
+    its n copies carries the annotation *)
+Definition coarse_fragment_multiplier_class (n : nat) : bool := Nat.leb 2 n.
+Definition mult_fail (tbl : table) (base : list (annot * pystr * attrs)) (fname : pystr) (a : annot) (text : pystr)
+           (n : nat) (copies : list (list attrs)) : nat :=
+  if negb (annot_ok doc_coarse a text) || Nat.eqb n 0 then 90%nat
+  else match expected (fo_of_table tbl) doc_coarse (a_assign a) (a_free a) with
+       | None => 0%nat
+       | Some e =>
+           let e' := filter (fun kv => negb (str_eqb (fst kv) (S "fragname"))) e in
+           if negb (Nat.eqb (length copies) (uses base fname)) || Nat.eqb (length copies) 0
+              || negb (forallb (fun cs => Nat.eqb (length cs) n) copies) then 11%nat
+           else if forallb (forallb (submapb e')) copies then 0%nat
+           else if coarse_fragment_dialect_class a then 110%nat
+           else if coarse_fragment_multiplier_class n
+                   && forallb (fun cs => match cs with c :: _ => submapb e' c | [] => false end) copies then 111%nat
+           else 10%nat
+       end.
+
 (** first failure that is NOT the known class; the known class (110) only if nothing else fails *)
 Definition first_new (l : list nat) : nat :=
   match first_fail (filter (fun n => negb (Nat.eqb n 110)) l) with
@@ -172,5 +205,10 @@ Definition prop_fail (c : case) : nat :=
                                  | Err e' => err_eqb e e' | Ok _ => false end) atoms
           then 110%nat else 9%nat
       | None => first_new (map (base_fail tbl) base ++ map (atom_fail tbl aa base) atoms)
+      end
+  | CMult tbl base fname a text n copies =>
+      match first_fail (map (base_fail tbl) base) with
+      | 0%nat => mult_fail tbl base fname a text n copies
+      | k => k
       end
   end.
